@@ -124,6 +124,10 @@ pub fn check_u_independence(ctx: &mut Ctx, prop: &str, d: usize, upd: bool) {
 }
 
 pub fn run_all(ctx: &mut Ctx, prop: &str, job0: u64) {
+    if !crate::run::file_source_streams() {
+        ctx.count("cli-timed:not applicable (the file source is not read incrementally)");
+        return;
+    }
     let mut job = job0;
     for d in 0..DS.len() {
         for upd in [false, true] {
